@@ -4,6 +4,7 @@ import (
 	"fmt"
 	"strings"
 	"sync"
+	"sync/atomic"
 
 	"github.com/gobuffalo/plush/v5"
 )
@@ -25,9 +26,13 @@ var c14templates = []string{
 	`<%= raw("<i>") %><%= "<i>" %><%= n + 1 %><%= !missing %>`,
 	`<%= name ~= "^g0" %><%= name ~= "1$" %><%= "ZAZ" ~= "A" %><%= "ZAZ" ~= "^A" %>`,
 	`<%= for (x) in items { %><%= x ~= "a" %><%= x ~= "[0-9]" %>,<% } %>`,
+	// a pattern never seen before in every execution (compiled for the first time while others run)
+	`<%= name ~= pat %>|<%= "zz" ~= pat %>|<%= for (x) in items { %><%= x ~= pat %><% } %>`,
 	// a helper that fills defaults into the options map it is given, called WITHOUT options
 	`<%= tagopt(name) %>|<%= tagopt("x" + name) %>|<%= tagopt(name, {id: "mine"}) %>`,
 }
+
+var c14patCtr int64
 
 func c14ctx(parent *plush.Context, g int) *plush.Context {
 	var c *plush.Context
@@ -44,6 +49,7 @@ func c14ctx(parent *plush.Context, g int) *plush.Context {
 		return fmt.Sprint(opts["id"])
 	})
 	c.Set("name", fmt.Sprintf("g%d", g%3))
+	c.Set("pat", fmt.Sprintf("^g%d$|^never%d$", g%3, atomic.AddInt64(&c14patCtr, 1)))
 	c.Set("n", g%4)
 	c.Set("items", []string{"a", "b", fmt.Sprint(g % 2)})
 	return c
